@@ -63,14 +63,24 @@ class CriticalPathCalculator:
         self.__tasks[task.id] = task
 
         p_ids = []
-        for p in task.predecessors:
-            p_ids.append(p.id)
-            self.__insert_task(p)
+        for p in self.__leaf_predecessors(task):
+            if p.id not in p_ids:
+                p_ids.append(p.id)
+                self.__insert_task(p)
 
         estimate = task.estimate if task.estimate is not None else 0
         spent = task.spent if task.spent is not None else 0
 
         self.__add_work(task.id, max(estimate - spent, 0), p_ids)
+
+    @staticmethod
+    def __leaf_predecessors(task: Task) -> List[Task]:
+        """Predecessors of task and of all its parents. Summary tasks are replaced by their leaf tasks"""
+        res = []
+        for t in [task] + [p for p in task.all_parents]:
+            for p in t.predecessors:
+                res += [ch for ch in [p] + [c for c in p.all_children] if len(ch.children) == 0]
+        return res
 
     def __new_node(self) -> _PNode:
         res = _PNode()
